@@ -277,6 +277,27 @@ fn crai_twins(doc: &Doc, v: &mut Vec<Twin>) {
 
 // ------------------------------------------------------------------------------------------ CRAM
 
+/// Per container (file header container and EOF container included): the bookkeeping fields of the header.
+pub fn cram_container_fields(b: &[u8]) -> Option<Vec<Vec<(&'static str, i64)>>> {
+    let (_, cs) = parse_cram(b)?;
+    Some(
+        cs.iter()
+            .map(|c| {
+                vec![
+                    ("reference_sequence_id", c.ints[0] as i64),
+                    ("alignment_start", c.ints[1] as i64),
+                    ("alignment_span", c.ints[2] as i64),
+                    ("record_count", c.ints[3] as i64),
+                    ("record_counter", c.longs[0]),
+                    ("base_count", c.longs[1]),
+                    ("block_count", c.blocks.len() as i64),
+                    ("landmark_count", c.landmarks.len() as i64),
+                ]
+            })
+            .collect(),
+    )
+}
+
 struct Blk {
     method: u8,
     content_type: u8,
@@ -492,6 +513,22 @@ fn cram_twins(doc: &Doc, v: &mut Vec<Twin>) {
                     v.push((label.into(), bytes));
                 }
             }
+        }
+    }
+    // container headers whose LTF8 bookkeeping fields (record counter, base count) take 3 … 9 bytes: values
+    // the small documents never reach; the readers only carry them along
+    for (label, counter, bases) in [
+        ("container-ltf8-3-and-4-bytes", 1i64 << 14, 1i64 << 21),
+        ("container-ltf8-5-and-6-bytes", 1i64 << 28, 1i64 << 35),
+        ("container-ltf8-7-and-8-bytes", 1i64 << 42, 1i64 << 49),
+        ("container-ltf8-9-bytes", 1i64 << 56, 1i64 << 57),
+    ] {
+        if let Some((def, mut cs)) = parse() {
+            for c in cs.iter_mut().skip(1).filter(|c| !c.is_eof) {
+                c.longs[0] += counter;
+                c.longs[1] += bases;
+            }
+            v.push((label.into(), emit_cram(&def, &cs, true)));
         }
     }
     if cs.last().map(|c| c.is_eof).unwrap_or(false) {
